@@ -183,6 +183,10 @@ class SimRLock:
         self._owner = None
         self._count = 0
 
+    @property
+    def _locked(self):          # same read-only view as SimLock gives (monitors look at it)
+        return self._owner is not None
+
     def acquire(self, blocking=True, timeout=-1):
         k = state.K
         a = k.enter('rlock-acquire')
